@@ -49,18 +49,23 @@ func (calc *convexHullCalculator) getConvexHull() geom.T {
 	if len(calc.inputPts) == 0 {
 		return nil
 	}
-	if len(calc.inputPts)/calc.stride == 1 {
-		return geom.NewPointFlat(calc.layout, calc.inputPts)
+
+	// Work on a de-duplicated copy of the input: the algorithm reorders the
+	// points in place, and it is the number of distinct points that decides
+	// whether the hull is a point, a line or a polygon.
+	uniquePts := transform.UniqueCoords(calc.layout, comparator{}, calc.inputPts)
+	if len(uniquePts)/calc.stride == 1 {
+		return geom.NewPointFlat(calc.layout, uniquePts)
 	}
-	if len(calc.inputPts)/calc.stride == 2 {
-		return geom.NewLineStringFlat(calc.layout, calc.inputPts)
+	if len(uniquePts)/calc.stride == 2 {
+		return geom.NewLineStringFlat(calc.layout, uniquePts)
 	}
 
-	reducedPts := transform.UniqueCoords(calc.layout, comparator{}, calc.inputPts)
+	reducedPts := uniquePts
 
 	// use heuristic to reduce points, if large
-	if len(calc.inputPts)/calc.stride > 50 {
-		reducedPts = calc.reduce(calc.inputPts)
+	if len(uniquePts)/calc.stride > 50 {
+		reducedPts = calc.reduce(uniquePts)
 	}
 	// sort points for Graham scan.
 	calc.preSort(reducedPts)
@@ -188,9 +193,14 @@ func (calc *convexHullCalculator) reduce(inputPts []float64) []float64 {
 	 * but this doesn't matter since the points of the interior polygon
 	 * are forced to be in the reduced set.
 	 */
+	// The point-in-ring test requires a closed ring.
+	ringPts := polyPts
+	if !internal.Equal(ringPts, 0, ringPts, len(ringPts)-calc.stride) {
+		ringPts = append(ringPts[:len(ringPts):len(ringPts)], ringPts[:calc.stride]...)
+	}
 	for i := 0; i < len(inputPts); i += calc.stride {
 		pt := geom.Coord(inputPts[i : i+calc.stride])
-		if !IsPointInRing(calc.layout, pt, polyPts) {
+		if !IsPointInRing(calc.layout, pt, ringPts) {
 			reducedSet.Insert(pt)
 		}
 	}
@@ -211,7 +221,8 @@ func (calc *convexHullCalculator) padArray3(pts []float64) []float64 {
 		if i < len(pts) {
 			pad[i] = pts[i]
 		} else {
-			pad[i] = pts[0]
+			// pad with copies of the first coordinate
+			pad[i] = pts[i%calc.stride]
 		}
 	}
 	return pad
